@@ -427,7 +427,7 @@ def run(tier, seed, only=None):
     c = core.Check("C10", tier, seed)
     gen_st = core.regen()
     b = core.build(PROP_FILE)
-    units = ("GenCrash", "GenStages", "GenNames")
+    units = ("GenCrash", "GenStages", "GenNames", "GenHarvest")
     c.cov["translator"] = {k: v for k, v in gen_st.items() if k in units}
     c.cov["build"] = {"ok": b["ok"], "failed_file": b["failed_file"], "wall_s": round(b.get("wall_s", 0), 1)}
     for k in units:
